@@ -162,6 +162,57 @@ Proof.
   specialize (H _ Hin). cbn [fst snd] in H. now apply reading_eqb_eq.
 Qed.
 
+(* ---- stores through a configured path of any shape --------------------------------------------- *)
+
+(* the history judge implies the specification whatever was read before the first store (a reading
+   that is no value: nothing could be read - and an unsuccessful store must leave it so) *)
+Theorem hist_ok_sound_any : forall val l p, hist_ok p l = true ->
+  steps_ok (decode val p) (spec_of_obs val l) (map (fun x : N * fate * reading => decode val (snd x)) l).
+Proof.
+  intros val l. induction l as [|[[v f] r] l IH]; intros p H; [exact I|].
+  cbn [hist_ok] in H. apply andb_prop in H as [H1 H2].
+  cbn [spec_of_obs map steps_ok fst snd].
+  apply orb_prop in H1 as [H1|H1].
+  - apply reading_eqb_eq in H1. subst r. split; [now left|]. now apply IH.
+  - apply andb_prop in H1 as [Hf H1]. apply reading_eqb_eq in H1. subst r. split; [|now apply IH].
+    right. split; [|reflexivity]. intros ->. discriminate.
+Qed.
+
+Lemma paths_ok_sound : forall val prev l, paths_ok prev l = true ->
+  steps_ok (decode val prev) (spec_of_obs val (paths_obs l false))
+           (map (fun x : N * fate * reading => decode val (snd x)) (paths_obs l false)) /\
+  steps_ok (decode val prev) (spec_of_obs val (paths_obs l true))
+           (map (fun x : N * fate * reading => decode val (snd x)) (paths_obs l true)).
+Proof.
+  intros val prev l H. unfold paths_ok in H. apply andb_prop in H as [H1 H2].
+  split; now apply hist_ok_sound_any.
+Qed.
+
+(* a store that reported success and after which the value is not read back is rejected, whatever was
+   there before and whatever follows *)
+Lemma paths_ok_done_reads : forall prev v r1 r2 l, paths_ok prev ((v, Done, r1, r2) :: l) = true ->
+  r1 = RVal v /\ r2 = RVal v.
+Proof.
+  intros prev v r1 r2 l H. unfold paths_ok in H. apply andb_prop in H as [H1 H2].
+  cbn [paths_obs map hist_ok fst snd fate_eqb negb andb] in H1, H2.
+  rewrite orb_false_r in H1, H2.
+  apply andb_prop in H1 as [H1 _]. apply andb_prop in H2 as [H2 _].
+  split; now apply reading_eqb_eq.
+Qed.
+
+(* the abstract store passes the history judge for every sequence of successful and failed stores *)
+Lemma path_model_ok : forall l prev,
+  forallb (fun x : N * fate => negb (fate_eqb (snd x) Died)) l = true ->
+  hist_ok prev (combine l (path_model prev l)) = true.
+Proof.
+  induction l as [|[v f] l IH]; intros prev H; [reflexivity|].
+  cbn [forallb snd] in H. apply andb_prop in H as [Hf H].
+  cbn [path_model combine hist_ok].
+  destruct f; cbn [fate_eqb negb andb] in *; try discriminate.
+  - cbn [reading_eqb]. rewrite N.eqb_refl. cbn [orb andb]. now apply IH.
+  - rewrite reading_eqb_refl, orb_true_r. cbn [andb]. now apply IH.
+Qed.
+
 (* ---- leftovers do not matter --------------------------------------------------------------------- *)
 
 Lemma mem_In : forall p l, mem p l = true -> In p l.
